@@ -1,8 +1,9 @@
 """property id -> check function(prop, tier, replay) -> exit code"""
-from . import router, reg
+from . import router, reg, selector
 
 CHECKS = {
     "C01": router.run,
     "C02": router.run,
     "C16": reg.run,
+    "C19": selector.run,
 }
